@@ -247,6 +247,15 @@ def family(cov, values):
     return dict(cov=covf, se=se, t=t, p=p, corr=corr, pair_t=pt, pair_p=pp)
 
 
+def undefined_family(k):
+    """A family none of whose figures is defined (bootstrap sample of a single replication: the sample covariance
+    divides by B - 1 = 0).  Every entry is the string 'undefined'; the key 'undefined' marks the family."""
+    u = 'undefined'
+    sq = [[u] * k for _ in range(k)]
+    return dict(cov=[list(r) for r in sq], se=[u] * k, t=[u] * k, p=[u] * k, corr=[list(r) for r in sq],
+                pair_t=[list(r) for r in sq], pair_p=[list(r) for r in sq], undefined=True)
+
+
 def sandwich_cancellation(hessian, bhhh):
     """Conditioning of the robust sandwich V B V (V = pinv(-H)), exact: the largest ratio, over the entries, of
     sum |v_ia b_ab v_bj| to |sum v_ia b_ab v_bj|.  1 = no cancellation; inf = an entry that is an exact zero
@@ -276,5 +285,8 @@ def outcome_stats(values, hessian, bhhh, bootstrap):
     out = dict(classical=family(v, values), robust=family(rob, values), bootstrap=None,
                rank=rank(a), k=len(values))
     if bootstrap is not None:
-        out['bootstrap'] = family(sample_cov(bootstrap), values)
+        if len(bootstrap) < 2:
+            out['bootstrap'] = undefined_family(len(values))
+        else:
+            out['bootstrap'] = family(sample_cov(bootstrap), values)
     return out
